@@ -2178,7 +2178,8 @@ _execs = {}
 
 
 def get_exec(repo, ms, registry):
-    k = (repo, ms.path)
+    # (two sidecars may put contracts on the same file: the executor carries the sidecar's intrinsics)
+    k = (repo, ms.path, id(ms))
     if k not in _execs:
         if getattr(ms, 'exec_class', None) == 'monitor':
             from .monitor import MonitorExec
